@@ -25,7 +25,7 @@ MANIFEST = {
     "text": "ListRange.tla defines Summary(db, first, last) as the sum over the stored blocks with first <= ts <= last (the engine's "
             "own block rule) and models ReadMetadata's add-day-totals-then-subtract algorithm step by step; TLC checks the algorithm "
             "against the definition for all DBs of <=3 days x 4 write-out slots x 120 ranges (bounds on blocks, between blocks, on day "
-            "boundaries, within 300 s of midnight, outside the data). Every DB of the family (quick: 150 seeded + model candidates) is "
+            "boundaries, within 300 s of midnight, outside the data). Every DB of the family (quick: 100 seeded + the model candidates) is "
             "written with the real DBWriter and every range is listed with the real ReadMetadata and compared field by field with the "
             "TLC-computed summary; packet/byte totals are compared with a real query over the same range.",
     "note": "Finite family (fixed slot offsets and block contents, one interface); the calendar position of the three days is "
@@ -38,7 +38,7 @@ FAMILY = "listrange"
 # the machine is shared: keep the JVMs' GC thread pools and the Go runtime small
 JENV = {"JAVA_TOOL_OPTIONS": "-XX:ParallelGCThreads=2 -XX:CICompilerCount=2"}
 GOENV = {"GOMAXPROCS": "4"}
-QUICK_DBS = 150
+QUICK_DBS = 100
 NWRITES = 12               # 3 days x 4 slots
 DEVS = ("A", "B", "C")
 DEV_WHAT = {
@@ -103,34 +103,64 @@ def main():
     run = vlib.Run("C12", "model_checking")
     thorough = run.tier == "thorough"
     vh = vlib.build_vh(FAMILY)
-    par = max(2, min(6, vlib.NCPU // 3))
+    par = max(2, min(5, vlib.NCPU // 3))
+    allmasks = list(range(1 << NWRITES))
+    if thorough:
+        masks = allmasks
+    else:
+        masks = sorted(set(random.Random(run.seed).sample(allmasks, QUICK_DBS)) | {(1 << NWRITES) - 1})
+    nchunks = 16 if thorough else 3
+    chunks = [masks[i::nchunks] for i in range(nchunks)]
+    qevery = 24 if thorough else 6
+
     with vlib.Scratch("verif-c12-") as sc:
-        # ---- M: the design without deviations must satisfy the definition; each deviation must not
-        # (coverage = vacuity guard on the 2-day family; thorough adds the full 3-day family without the coverage overhead)
-        jobs = {"repaired": (_mc_cfg(2, ()), dict(coverage=True, workers=3))}
-        if thorough:
-            jobs["repaired3"] = (_mc_cfg(3, ()), dict(workers=4))
+        def gen(tag, ms, workers):
+            g = vlib.tlc(FAMILY, "ListRangeGen", _gen_cfg(ms), scratch=_sub(sc, "g-" + tag), timeout=1500, heap="3g",
+                         env_extra=JENV, workers=workers)
+            vlib.expect_tlc_ok(g, "ListRangeGen " + tag)
+            if g.violation:
+                raise vlib.MachineryError("ListRangeGen %s: %s" % (tag, g.violation))
+            behs = sorted(g.traces, key=lambda b: b["mask"])
+            vlib.require([b["mask"] for b in behs] == sorted(ms), "generator %s incomplete" % tag)
+            for b in behs:
+                vlib.require(len(b["cases"]) == 120, "mask %d: %d cases" % (b["mask"], len(b["cases"])))
+                vlib.require(all(c["repaired"] for c in b["cases"]),
+                             "spec inconsistency: Algo without deviations differs from Summary for mask %d" % b["mask"])
+            return g, behs
+
+        def pipeline(i):
+            g, behs = gen("c%d" % i, chunks[i], 3 if thorough else 2)
+            f, s = _replay(vh, sc, "c%d" % i, behs, run.seed, qevery)
+            smp = behs[len(behs) // 2]
+            return g, f, s, {"mask": smp["mask"], "writes": [(x["act"]["day"], x["act"]["ts"]) for x in smp["steps"]],
+                             "case": smp["cases"][37]}
+
+        # ---- M (model alone) and F (family on the real code) run side by side
+        # M: the design without deviations must satisfy the definition on the whole family (2 days quick, 3 days thorough);
+        #    a 1-day run with -coverage is the vacuity guard; each named deviation alone must violate the invariant.
+        mjobs = {"repaired": (_mc_cfg(3 if thorough else 2, ()), dict(workers=4 if thorough else 3, heap="6g")),
+                 "cover": (_mc_cfg(1, ()), dict(coverage=True, workers=1, heap="2g"))}
         for d in DEVS:
-            jobs["dev" + d] = (_mc_cfg(2, (d,), "NegGrid"), dict(workers=1))   # workers=1: deterministic first counterexample
-        with ThreadPoolExecutor(max_workers=len(jobs)) as ex:
-            futs = {k: ex.submit(vlib.tlc, FAMILY, "ListRangeMC", cfg, scratch=_sub(sc, "m-" + k), timeout=800, heap="6g",
-                                 env_extra=JENV, **kw)
-                    for k, (cfg, kw) in jobs.items()}
-            res = {k: f.result() for k, f in futs.items()}
+            mjobs["dev" + d] = (_mc_cfg(2, (d,), "NegGrid"), dict(workers=1, heap="2g"))   # workers=1: deterministic counterexample
+        with ThreadPoolExecutor(max_workers=len(mjobs)) as mex, ThreadPoolExecutor(max_workers=par) as fex:
+            mfut = {k: mex.submit(vlib.tlc, FAMILY, "ListRangeMC", cfg, scratch=_sub(sc, "m-" + k), timeout=800,
+                                  env_extra=JENV, **kw) for k, (cfg, kw) in mjobs.items()}
+            ffut = [fex.submit(pipeline, i) for i in range(nchunks)]
+            res = {k: f.result() for k, f in mfut.items()}
+            outs = [f.result() for f in ffut]
+
+        ndays = 3 if thorough else 2
         r = vlib.expect_tlc_ok(res["repaired"], "ListRangeMC")
         if r.violation:
             raise vlib.MachineryError("ListRange design without deviations violates %s (spec error, not a code verdict)\n%s"
                                       % (r.violation, "\n".join(r.cex[:40])))
+        vlib.require(r.distinct > (2000000 if thorough else 100000), "model run explored too few states")
+        run.add_tlc(r, "ListRangeMC NDays=%d Dev={}" % ndays)
+        cv = vlib.expect_tlc_ok(res["cover"], "ListRangeMC coverage")
+        vlib.require(cv.violation is None, "ListRangeMC NDays=1 violates %s" % cv.violation)
         for a in ("WriteBlock", "SkipSlot", "List", "AddDay", "SubtractBefore", "SubtractAfter"):
-            vlib.require(r.coverage.get(a, (0, 0))[0] > 0, "vacuous: action %s never taken" % a)
-        run.add_tlc(r, "ListRangeMC NDays=2 Dev={}")
-        if thorough:
-            r3 = vlib.expect_tlc_ok(res["repaired3"], "ListRangeMC NDays=3")
-            if r3.violation:
-                raise vlib.MachineryError("ListRange design without deviations violates %s on the 3-day family (spec error)\n%s"
-                                          % (r3.violation, "\n".join(r3.cex[:40])))
-            vlib.require(r3.distinct > 2000000, "3-day model run explored too few states")
-            run.add_tlc(r3, "ListRangeMC NDays=3 Dev={}")
+            vlib.require(cv.coverage.get(a, (0, 0))[0] > 0, "vacuous: action %s never taken" % a)
+        run.add_tlc(cv, "ListRangeMC NDays=1 Dev={} -coverage")
         candidates = []
         for d in DEVS:
             n = res["dev" + d]
@@ -144,52 +174,17 @@ def main():
             run.add_tlc(n, "ListRangeMC NDays=2 Dev={%s} (must fail)" % d)
         run.cov["model_negative_runs"] = "each of Dev={A},{B},{C} violates AlgoEqualsDefinition on the model"
 
-        # ---- F: generate the family, replay on the real code
-        allmasks = list(range(1 << NWRITES))
-        if thorough:
-            masks = allmasks
-        else:
-            masks = sorted(set(random.Random(run.seed).sample(allmasks, QUICK_DBS)) | {c["mask"] for c in candidates} | {(1 << NWRITES) - 1})
-        nchunks = 16 if thorough else par
-        chunks = [masks[i::nchunks] for i in range(nchunks)]
-        qevery = 24 if thorough else 5
+        # ---- F results
         total = {}
         fails = []
-        cand_beh = {}
-        gen_results = []
-
-        def pipeline(i):
-            g = vlib.tlc(FAMILY, "ListRangeGen", _gen_cfg(chunks[i]), scratch=_sub(sc, "g-%d" % i), timeout=1500, heap="4g", env_extra=JENV,
-                         workers=3 if thorough else 2)
-            vlib.expect_tlc_ok(g, "ListRangeGen chunk %d" % i)
-            if g.violation:
-                raise vlib.MachineryError("ListRangeGen chunk %d: %s" % (i, g.violation))
-            behs = sorted(g.traces, key=lambda b: b["mask"])
-            vlib.require([b["mask"] for b in behs] == sorted(chunks[i]), "generator chunk %d incomplete" % i)
-            for b in behs:
-                vlib.require(len(b["cases"]) == 120, "mask %d: %d cases" % (b["mask"], len(b["cases"])))
-                vlib.require(all(c["repaired"] for c in b["cases"]),
-                             "spec inconsistency: Algo without deviations differs from Summary for mask %d" % b["mask"])
-                for c in candidates:
-                    if c["mask"] == b["mask"]:
-                        case = [x for x in b["cases"] if x["f"] == c["f"] and x["l"] == c["l"]]
-                        cand_beh[c["dev"]] = dict(b, cases=case)
-            f, s = _replay(vh, sc, "c%d" % i, behs, run.seed, qevery)
-            smp = behs[len(behs) // 2]
-            return g, f, s, {"mask": smp["mask"], "writes": [(x["act"]["day"], x["act"]["ts"]) for x in smp["steps"]],
-                             "case": smp["cases"][37]}
-
-        with ThreadPoolExecutor(max_workers=par) as ex:
-            outs = list(ex.map(pipeline, range(nchunks)))
         for g, f, s, smp in outs:
-            gen_results.append(g)
             fails += f
             _merge(total, s)
         gsum = vlib.TLCResult()
-        gsum.generated = sum(g.generated for g in gen_results)
-        gsum.distinct = sum(g.distinct for g in gen_results)
-        gsum.depth = max(g.depth for g in gen_results)
-        gsum.wall = sum(g.wall for g in gen_results)
+        gsum.generated = sum(o[0].generated for o in outs)
+        gsum.distinct = sum(o[0].distinct for o in outs)
+        gsum.depth = max(o[0].depth for o in outs)
+        gsum.wall = sum(o[0].wall for o in outs)
         run.add_tlc(gsum, "ListRangeGen (%d chunks)" % nchunks)
         run.sample({"kind": "generated DB and one of its 120 range cases", **outs[0][3]})
 
@@ -230,18 +225,18 @@ def main():
                                       "failing_cases_of_this_class": n})
 
         # ---- candidates of the model replayed on the real code (confirmed = the real code deviates the same way)
+        cmasks = sorted({c["mask"] for c in candidates})
+        g, cbehs = gen("cand", cmasks, 1)
+        run.add_tlc(g, "ListRangeGen (model candidates)")
         conf = []
         for c in candidates:
-            b = cand_beh.get(c["dev"])
-            if b is None:
-                g = vlib.tlc(FAMILY, "ListRangeGen", _gen_cfg([c["mask"]]), scratch=sc, timeout=600, workers=1, env_extra=JENV)
-                vlib.expect_tlc_ok(g, "ListRangeGen candidate")
-                b = dict(g.traces[0], cases=[x for x in g.traces[0]["cases"] if x["f"] == c["f"] and x["l"] == c["l"]])
+            b0 = [b for b in cbehs if b["mask"] == c["mask"]][0]
+            b = dict(b0, cases=[x for x in b0["cases"] if x["f"] == c["f"] and x["l"] == c["l"]])
             vlib.require(len(b["cases"]) == 1, "candidate case not in the generated family")
             f, s = _replay(vh, sc, "cand" + c["dev"], [b], run.seed, 1, maxfail=10)
             devs = sorted({o["desc"].get("dev") for o in f if o["desc"].get("dev")})
             conf.append({"dev": c["dev"], "what": DEV_WHAT[c["dev"]], "mask": c["mask"], "first": c["f"], "last": c["l"],
-                         "spec_summary": c["def"], "model_as_built": c["model_algo"],
+                         "spec_summary": c["def"], "model_with_this_deviation_only": c["model_algo"],
                          "real_code": f[0].get("got") if f else b["cases"][0]["exp"],
                          "confirmed_on_real_code": c["dev"] in devs})
             run.count(s["steps"] + s["cases"] + s["queries"])
@@ -266,7 +261,7 @@ def main():
 
     run.cov["rule"] = ("cases = (DB, first, last): %s DBs over 3 days x 4 write-out slots x 120 ranges from a 15-point grid; "
                        "distinct_nontrivial = cases whose range cuts the stored data (expected summary neither empty nor the whole DB)"
-                       % ("all 4096" if thorough else "%d seeded + model candidates of the 4096" % QUICK_DBS))
+                       % ("all 4096" if thorough else "%d seeded of the 4096" % QUICK_DBS))
     run.assumptions += ["block contents are fixed per write-out slot (distinct powers of two per additive field; one write-out without "
                         "flows, one IPv6-only, three without drops)",
                         "one interface; blocks written in time order by goDB.DBWriter.Write (lz4, every fifth DB null encoder)",
